@@ -87,6 +87,10 @@ func checkTextUnits(c *Ctx, u *Universe) {
 		n := len(u.callsNamed(f, s.callee))
 		bad := false
 		for _, in := range instrsOf(f) {
+			// `for _, ch := range text` decodes the same way (the language defines it through the UTF-8 decoder)
+			if rg, ok := in.(*ssa.Range); ok && isStringType(rg.X.Type()) && s.fn == "strGetCharArray" {
+				n++
+			}
 			if call, ok := in.(*ssa.Call); ok {
 				if b, ok := call.Call.Value.(*ssa.Builtin); ok && b.Name() == "len" && isStringType(call.Call.Args[0].Type()) && s.fn == "strGetLength" {
 					bad = true
